@@ -79,6 +79,8 @@ KINDS = (
     ("method removed, name now resolves to object's slot wrapper", CallTraceRow(M, "Base.__eq__", "{}", None, None), False),
     ("method now a functools.cached_property", CallTraceRow(M, "WithCached.cached", "{}", None, None), False),
     ("function now a builtin type's method descriptor", CallTraceRow("builtins", "str.upper", "{}", None, None), False),
+    ("module removed whose name is a textual prefix of the live module's", CallTraceRow("vfix.func", "f", "{}", None, None), False),
+    ("method now a custom non-data descriptor", CallTraceRow(M, "WithLazy.lazy", "{}", None, None), False),
     ("element class removed inside a generic",
      CallTraceRow(M, "mod_func", json.dumps({"a": {"module": "typing", "qualname": "List", "elem_types": [{"module": "vfix.classes", "qualname": "Gone"}]}}), None, None), False),
 )
